@@ -379,6 +379,21 @@ func drive(id string, p Prop, tier string) int {
 					reported++
 					continue
 				}
+				if libNondet(a.warnings) {
+					// The oracle failed in a real execution of the worker. It does not recur from
+					// the explicit cases because the library under test uses facilities that differ
+					// from run to run (the instrumenter saw sync.Pool / a clock / randomness - none
+					// of which the unchanged tree has). Reported with the worker's case prefix.
+					dst := filepath.Join(replayDir(e), fmt.Sprintf("%s-%d-%d.json", id, e.seed, reported))
+					os.MkdirAll(filepath.Dir(dst), 0755)
+					b, _ := os.ReadFile(multi)
+					os.WriteFile(dst, b, 0644)
+					fmt.Printf("VIOLATION property=%s replay=%s\n", id, dst)
+					fmt.Printf("  class=%s seed=%d run_seed=%d plan=%s\n  VIOLATED property=%s class=%s %s\n  NOTE: observed by run %d of worker %d; it did not recur when the explicit cases were replayed in a fresh process - the library under test is not a function of the case (instrumenter warnings: %v)\n", v.rec.Class, e.seed, v.rec.RunSeed, v.plan.Name, id, v.rec.Class, strings.Replace(v.rec.Detail, "\n", "\n  ", -1), v.idx, v.wkr, keys(a.warnings))
+					vlines = append(vlines, "class="+v.rec.Class+" (not reproducible on replay) replay="+dst)
+					reported++
+					continue
+				}
 				unconfirmed = append(unconfirmed, fmt.Sprintf("class %s (run seed %d, plan %s): %s", v.rec.Class, v.rec.RunSeed, v.plan.Name, v.rec.Detail))
 				continue
 			}
@@ -516,12 +531,7 @@ func drive(id string, p Prop, tier string) int {
 	if len(unconfirmed) > 0 {
 		return trouble("a violation was observed by a worker but reproduces neither from its case nor from the worker's run prefix:\n%s", strings.Join(unconfirmed, "\n"))
 	}
-	nondet := false
-	for w := range a.warnings {
-		if strings.Contains(w, "sync.Pool") || strings.HasPrefix(w, "randomness") || strings.HasPrefix(w, "clock") {
-			nondet = true
-		}
-	}
+	nondet := libNondet(a.warnings)
 	if a.detMismatch > 0 && nondet {
 		fmt.Printf("NOTE: %d of %d re-executed cases gave a different event trace; the library under test uses run-to-run nondeterministic facilities (%v), so this is not held against the machinery\n", a.detMismatch, a.detChecked, keys(a.warnings))
 		a.detMismatch = 0
@@ -833,4 +843,15 @@ func shrinkCmd(id string, p Prop, in, out string, args []string) int {
 	fmt.Printf("shrink: %d successful reductions, %d fresh-process executions, per-candidate processes=%v\n", steps, n, subOnly)
 	writeJSON(out, c)
 	return 0
+}
+
+// libNondet: the instrumenter found run-to-run nondeterministic facilities in the library
+// under test (the unchanged tree has none).
+func libNondet(warnings map[string]bool) bool {
+	for w := range warnings {
+		if strings.Contains(w, "sync.Pool") || strings.HasPrefix(w, "randomness") || strings.HasPrefix(w, "clock") {
+			return true
+		}
+	}
+	return false
 }
